@@ -43,6 +43,18 @@ static Violation twin_viol(const char *prop, const char *rule, const std::string
         return v;
 }
 
+// variables of line-addressable commands only (the isolated-lines twin has no event traffic)
+static std::vector<bytes> line_vars(const Plan &p, const std::vector<bytes> &flat)
+{
+        std::vector<bytes> r;
+        size_t k = 0;
+        for (auto &c : p.cmds)
+                for (size_t v = 0; v < c.vars.size(); v++, k++)
+                        if (!c.ev && k < flat.size())
+                                r.push_back(flat[k]);
+        return r;
+}
+
 // ---------------------------------------------------------------- C20: isolated-lines twin
 
 static Plan derive_isolated(const Plan &s)
@@ -110,6 +122,7 @@ Outcome check_plan(const std::string &prop, const Plan &p)
 {
         Outcome o;
         RunOpts ro;
+        ro.focus = prop;
         if (p.prop == "C03R")
                 ro.monitor = false; // robustness-only plans outside the modelled domain
         if ((prop == "C16" || prop == "C17") && p.mutex && !engine_asan())
@@ -119,12 +132,15 @@ Outcome check_plan(const std::string &prop, const Plan &p)
         o.res = run_plan(p, ro);
         o.runs = 1;
         classify(o, prop, o.res.viol);
+        if (!o.other.set() && o.res.soft_other.set())
+                o.other = o.res.soft_other;
         if (o.viol.set())
                 return o;
 
         if (prop == "C12" && !o.res.desync) {
                 Plan e = plan_eager(p);
                 RunOpts eo;
+                eo.focus = prop;
                 eo.eager = true;
                 RunResult re = run_plan(e, eo);
                 o.runs++;
@@ -203,6 +219,7 @@ Outcome check_plan(const std::string &prop, const Plan &p)
         if (prop == "C20" && !o.res.desync) {
                 Plan iso = derive_isolated(p);
                 RunOpts io;
+                io.focus = prop;
                 io.eager = true;
                 io.keep_going = true;
                 RunResult ri = run_plan(iso, io);
@@ -240,7 +257,7 @@ Outcome check_plan(const std::string &prop, const Plan &p)
                                               o.res.cmd_units, ri.cmd_units);
                         else if (ri.cmd_handlers != o.res.cmd_handlers)
                                 v = twin_viol("C20", "handler-trace-depends-on-earlier-lines", "handler invocations differ from those of the lines fed alone", o.res.cmd_handlers, ri.cmd_handlers);
-                        else if (ri.final_vars != o.res.final_vars)
+                        else if (line_vars(p, ri.final_vars) != line_vars(p, o.res.final_vars))
                                 v.prop = "C20", v.rule = "variables-depend-on-earlier-lines", v.detail = "final variable contents differ from those after feeding the lines alone";
                         classify(o, prop, v);
                 }
